@@ -38,7 +38,10 @@ def check(ctx):
                and isinstance(n.value, ast.Call) and repo.dotted(fn, n.value.func) == "operator.itemgetter"]
         by_assign = [n for n in body_nodes(fn.node) if isinstance(n, ast.Assign) and isinstance(n.targets[0], ast.Tuple)
                      and isinstance(n.value, ast.Call) and isinstance(n.value.func, ast.Attribute) and n.value.func.attr == "_split_join_by"]
-        BY1, BY2 = (norm(e) for e in by_assign[0].targets[0].elts) if by_assign else ("by1", "by2")
+        if not by_assign:
+            raise AnalysisError(f"{fn.qualname}: the (left, right) key names are no longer obtained from self._split_join_by(...) in the "
+                                f"method itself; the merge rules have no right-hand key names to judge against")
+        BY1, BY2 = (norm(e) for e in by_assign[0].targets[0].elts)
         EX1 = next((norm(n.targets[0]) for n in ex2 if norm(n.value.args[0]) == f"*{BY1}"), "extract1")
         EX2 = next((norm(n.targets[0]) for n in ex2 if norm(n.value.args[0]) == f"*{BY2}"), "extract2")
         from ..forms import contributions
